@@ -323,6 +323,52 @@ def linked_part(res, states, work):
                     "replay": {"op": "linked-file", "fmt": fmt, "mode": mode, "at": at}})
 
 
+def scheduled_part(res, work):
+    """"The next save succeeds" for the saves the gateway makes itself: the thread-based gateway's save schedule
+    (real `_schedule_factory`, the timer a fake that fires on request) with one file operation failing during
+    one scheduled save.  The next scheduled save — there must be one — writes the state held then."""
+    for fmt in pu.FORMATS:
+        for op in ("fsync", "rename", "open"):
+            path = os.path.join(work, f"sched-{op}.{fmt}")
+            rep = {"op": "scheduled", "fmt": fmt, "failing": op}
+            bad = scheduled_case(path, op)
+            res.evaluations += 1
+            res.count("scheduled-save:" + op)
+            if bad:
+                res.oracle_failures.append({"key": {"kind": "scheduled-next-save", "op": op}, "replay": rep,
+                                            "what": f"{fmt}: a scheduled save failed at {op}: {bad}"})
+
+
+def scheduled_case(path, failing):
+    for p in (path, path + ".bak", pu.tmp_name(path)):
+        pu.put(p, None)
+    with pu.fake_timers() as FT:
+        gw = pu.make_gateway("2.2", persistence_file=path, flavour="sync")
+        gw.logic("1;255;0;0;17;2.2\n")
+        gw.tasks.persistence.schedule_save_sensors()          # saves now, arms the timer
+        if not FT.instances or not FT.instances[-1].started:
+            return "the schedule did not arm a timer after its first save"
+        gw.logic("1;0;0;0;6;t\n")
+        first = FT.instances[-1]
+        shim = pu.FsShim(mode="fail", only=lambda name, args: name == failing)
+        try:
+            with shim.installed():
+                first.fire()
+        except Exception as exc:  # noqa: BLE001
+            return f"the failing save raised {type(exc).__name__} out of the schedule"
+        if FT.instances[-1] is first or not FT.instances[-1].started:
+            return "no further save is scheduled after the failed one"
+        gw.logic("1;0;1;0;0;21.5\n")
+        try:
+            FT.instances[-1].fire()
+        except Exception as exc:  # noqa: BLE001
+            return f"the next scheduled save raised {type(exc).__name__}: {exc}"
+        exc, loaded = pu.fresh_load(path)
+        if exc is not None or pu.project(loaded) != pu.project_reset(gw.sensors):
+            return "the next scheduled save did not persist the state held"
+    return None
+
+
 def run(tier, seed, driver):
     res = Result()
     rng = random.Random(seed * 7919 + 12)
@@ -332,6 +378,7 @@ def run(tier, seed, driver):
         states = build_states(random.Random(seed * 7919 + 12))[0]
         size_limit_part(res, states, work, tier)
         linked_part(res, states, work)
+        scheduled_part(res, work)
     finally:
         pu.rmtree(work)
     return res
@@ -612,6 +659,10 @@ def replay(payload):
     work = tempfile.mkdtemp(prefix="verif-c12-")
     try:
         states, script = build_states(rng)
+        if r.get("op") == "scheduled":
+            bad = scheduled_case(os.path.join(work, f"sched.{r['fmt']}"), r["failing"])
+            print("scheduled save after a failure at", r["failing"], ":", bad or "persisted the state held")
+            return 1 if bad else 0
         if r.get("op") == "linked-file":
             _n, cls, nxt = linked_save(r["fmt"], r["mode"], r["at"], states, work)
             print(f"a start-up on the configured path loads: {cls}; the next save persisted the state: {nxt}")
